@@ -356,6 +356,12 @@ nextFileMatch:
 	}
 
 	for _, md := range d.repoMetaData {
+		// 🚨 SECURITY: RepoURLs and LineFragments carry repository names and URL
+		// templates. Do not add repositories of other tenants sharing this
+		// (compound) shard.
+		if !tenant.HasAccess(ctx, md.TenantID) {
+			continue
+		}
 		r := md
 		addRepo(&res, &r)
 		for _, v := range r.SubRepoMap {
